@@ -31,9 +31,11 @@ import (
 	"io"
 	"math/rand"
 	"os"
+	"os/exec"
 	"path/filepath"
 	"reflect"
 	"runtime"
+	"strconv"
 	"syscall"
 
 	"com.tuntun.rangers/node/src/storage/rlp"
@@ -585,6 +587,47 @@ func concurrent(tr *vutil.Trace, name string, vals []reflect.Value, rounds int) 
 	return
 }
 
+// firstUseType: the type round k of the first-use family works on (the wide and nested ones more often).
+func firstUseType(k int) string {
+	heavy := []string{"Wide", "EthTx", "Snest", "Sif", "Senc", "RB", "RTree", "RArr", "Sptr", "SnilS"}
+	if k%3 != 2 {
+		return heavy[(k/3)%len(heavy)]
+	}
+	return typeNames[(k/3)%len(typeNames)]
+}
+
+// firstUseRound runs in a fresh process: nothing has touched the codec yet.  Eight goroutines are
+// released together and each encodes and decodes its own value of one type - the first use of that
+// type (and of its field types) in the process.  Every result is logged as an ordinary Encode event.
+func firstUseRound(out string, k int) {
+	name := firstUseType(k)
+	rng := rand.New(rand.NewSource(vutil.Seed()*7919 + int64(k)))
+	t := catalogue[name]
+	vals := make([]reflect.Value, 8)
+	for i := range vals {
+		vals[i] = randValue(rng, t, 0, "")
+	}
+	evs := make([]map[string]interface{}, len(vals))
+	start := make(chan struct{})
+	done := make(chan int, len(vals))
+	for i := range vals {
+		go func(i int) {
+			<-start
+			evs[i] = encodeAfter("", reflect.Value{}, name, vals[i], "firstuse")[1]
+			done <- i
+		}(i)
+	}
+	close(start)
+	for range vals {
+		<-done
+	}
+	tr := vutil.NewTrace(out)
+	for _, ev := range evs {
+		tr.Emit(ev)
+	}
+	tr.Close()
+}
+
 // badValue: a value of a container type with a negative big integer inside, after
 // at least one encodable field (so the failing encode has produced output).
 func badValue(rng *rand.Rand) (string, reflect.Value) {
@@ -672,6 +715,8 @@ func main() {
 	salt := flag.Int64("salt", 0, "extra seed salt (shard number)")
 	curPath := flag.String("current", "", "side file naming the input being decoded")
 	concRounds := flag.Int("conc", 0, "concurrency family: rounds per type (K goroutines each)")
+	firstUse := flag.Int("firstuse", 0, "first-use family: number of fresh processes (one type each, 8 goroutines released together)")
+	firstUseChild := flag.Int("firstuse-child", -1, "internal: run as the fresh process number k of the first-use family")
 	flag.Parse()
 	// a decoder that trusts a declared size must not take the machine down with it
 	syscall.Setrlimit(syscall.RLIMIT_AS, &syscall.Rlimit{Cur: 8 << 30, Max: 8 << 30})
@@ -683,6 +728,10 @@ func main() {
 		current = f
 	}
 	outAbs, _ := filepath.Abs(*out)
+	if *firstUseChild >= 0 {
+		firstUseRound(outAbs, *firstUseChild)
+		return
+	}
 	var cases []tcase
 	codecutil.ReadCases(*casesPath, &cases)
 	opsRng = vutil.Rng(88 + 1000**salt)
@@ -787,7 +836,45 @@ func main() {
 			}
 		}
 	}
+	// first-use family: the very first use of a type in a process, by several goroutines at once -
+	// one fresh process (this binary re-executed) per round
+	nFirst := 0
+	for k := 0; k < *firstUse; k++ {
+		cf := outAbs + fmt.Sprintf(".first%04d", k)
+		cmd := exec.Command(os.Args[0], "--firstuse-child", strconv.Itoa(k+int(*salt)*100000), "--out", cf)
+		cmd.Env = os.Environ()
+		if outb, err := cmd.CombinedOutput(); err != nil {
+			// the child died of something recover() cannot catch: report it as a panic of that type
+			name := firstUseType(k + int(*salt)*100000)
+			tail := string(outb)
+			if len(tail) > 300 {
+				tail = tail[:300]
+			}
+			tr.Emit(map[string]interface{}{"event": "Encode", "src": "firstuse", "t": name, "val": errForm(), "ok": false, "panic": true,
+				"msg": "process died: " + tail, "enc": []int{}, "back": map[string]interface{}{"ok": false, "panic": false, "val": errForm()}})
+			nEnc++
+			nFirst++
+			continue
+		}
+		b, err := os.ReadFile(cf)
+		if err != nil {
+			vutil.Fatalf("first-use child trace: %v", err)
+		}
+		for _, line := range bytes.Split(b, []byte("\n")) {
+			if len(line) == 0 {
+				continue
+			}
+			var ev map[string]interface{}
+			if err := json.Unmarshal(line, &ev); err != nil {
+				vutil.Fatalf("first-use child event: %v", err)
+			}
+			tr.Emit(ev)
+			nEnc++
+			nFirst++
+		}
+		os.Remove(cf)
+	}
 	tr.Close()
-	fmt.Printf("c08: conc_encodes=%d conc_events=%d ", concRan, concEmitted)
+	fmt.Printf("c08: firstuse_events=%d conc_encodes=%d conc_events=%d ", nFirst, concRan, concEmitted)
 	fmt.Printf("decode_events=%d encode_events=%d fail_events=%d events=%d types=%d\n", nDec, nEnc, nFail, tr.N, len(typeNames))
 }
